@@ -340,7 +340,7 @@ PROPS = {
         "rule": MATCH_RULE,
     },
     "C03": {
-        "modules": ["Sheens.Props.C03", "Sheens.Props.C03Linear"],
+        "modules": ["Sheens.Props.C03", "Sheens.Props.C03Linear", "Sheens.Props.C03Outcome"],
         "theorems": [],
         "facts": ["match_copies_first", "copyBindingss_copies", "matcher_branches_copy", "matcher_writes_only_locals_and_bindings", "match_no_hidden_state"],
         "runs": {
@@ -425,7 +425,7 @@ PROPS = {
         "rule": ENGINE_RULE,
     },
     "C18": {
-        "modules": ["Sheens.Props.C18"],
+        "modules": ["Sheens.Props.C18", "Sheens.Props.C18Own"],
         "theorems": [],
         "facts": ["exec_writeback_guarded", "name_conventions", "engine_constants"],
         "runs": {
@@ -497,7 +497,7 @@ PROPS = {
         "rule": TIMERS_RULE,
     },
     "C19": {
-        "modules": ["Sheens.Props.C19"],
+        "modules": ["Sheens.Props.C19", "Sheens.Props.C19Exact"],
         "theorems": [],
         "facts": [],
         "runs": {
